@@ -126,10 +126,14 @@ check("C07", "no race, crash or hang under concurrent use", [
        "91 pairs of 13 entry points (put, get, delete, scan, tx, flush, stats, batch, is-deleted, read-only tx, tx with a refused commit, compaction, range scan + compaction stats), preemption bound 1", "preemption bound 2", q=P1, t={"preempt": 2, "budget_s": 1200}, no_validate=True, termination=True),
     ob("VerifC07_PairsOnAgedEngine", "pkg/engine", "the same pairs on an engine with a history: two flushed level-0 tables, one completed compaction cycle with output files, with or without a restart on those files (state that only exists after maintenance is shared too)",
        "91 pairs x {running, restarted}, preemption bound 0 (the race detector is happens-before based and does not need a preemption to see an unsynchronised pair)", "preemption bound 1", q={"preempt": 0, "budget_s": 500}, t={"preempt": 1, "budget_s": 1200}, no_validate=True, termination=True),
+    ob("VerifC07_RegistryPairs", "pkg/transaction", "every unordered pair of seven transaction-registry entry points (begin+use+finish, begin+abandon, use of an existing handle, Remove, CleanupConnection, the stale-transaction sweep, GracefulShutdown - not with itself) from two goroutines of the same or different connections, on a registry holding one transaction: no data race, panic, deadlock; both return",
+       "27 pairs x {same, different connection}, preemption bound 0 (begin deadlines fire or not)", "preemption bound 1 (818 k schedules)", q={"preempt": 0, "budget_s": 300}, t={"preempt": 1, "budget_s": 900}, no_validate=True, termination=True),
+    ob("VerifC07_StatsPairs", "pkg/stats", "every unordered pair of eight statistics entry points (operation/latency/error/byte/flush counters, GetStats, GetStatsFiltered, recovery stats) from two goroutines on the same or different operation types, lazily created counters present or not: no data race, no panic; both return",
+       "36 pairs x 4 variants, preemption bound 1", "preemption bound 2", q=P1, t={"preempt": 2, "budget_s": 600}, no_validate=True, termination=True),
     ob("VerifC07_WritersVsBackgroundFlush", "pkg/engine", "two clients writing twice each into an engine with a 1-byte memtable while the real background flush goroutine runs as a third thread (explicit flush as a fourth in thorough): no race/panic/deadlock, every call returns, last acknowledged writes readable",
        "3 threads, preemption bound 1, background flush loop started as a thread", "4 threads", q={"preempt": 1, "background": ["backgroundFlush"], "budget_s": 500}, t={"preempt": 1, "background": ["backgroundFlush"], "budget_s": 1200}, no_validate=True, termination=True),
     ob("VerifC07_TombstoneTracker", "pkg/compaction", "TombstoneTracker.AddTombstone || ShouldKeepTombstone", "2 threads, preemption bound 1", q=P1, no_validate=True),
-], [SIMFS, CLOCK, HASH, BLOOM, RAND, LOG, "Tier B: vector-clock race detector over the interpreter's memory cells; schedules up to the preemption bound"], ["Close concurrent with other calls", ">2 simultaneous calls"])
+], [SIMFS, CLOCK, HASH, BLOOM, RAND, LOG, "Tier B: vector-clock race detector over the interpreter's memory cells; schedules up to the preemption bound"], ["Close concurrent with other calls", "GracefulShutdown of the registry concurrent with itself (a second shutdown panics with close of closed channel, sequentially too; treated like Close)", "the compaction file tracker (all six methods take its one mutex; read, not encoded)", ">2 simultaneous calls"])
 
 check("C08", "sequence numbers strictly increase", [
     ob("VerifC08_SeqMonotone", "pkg/engine/storage", "programs of put / 2-entry batch / empty batch / flush / reopen; log read back: first sequence per write strictly increasing; reported last sequence never decreases and ends at the number of the last write",
